@@ -28,6 +28,12 @@
 //! session; split points wait on sozu's read counter instead of sleeping; receivers re-arm
 //! TCP_QUICKACK and no socket buffer below 16 KB is used on a receive side (silly-window stalls).
 //!
+//! Attribution by observation of sozu's own accounting (QueryMetrics on the lab worker, after every
+//! session): a session during which `tcp.infinite_loop.error` / `http.infinite_loop.error` moved was
+//! ended by sozu's loop-iteration guard and whatever is missing in either direction is reported as
+//! `.../session_cut_mid_transfer`; a session that got no backend connection is a violation only if
+//! sozu wrote nothing and has no backend connection error on record (else inconclusive).
+//!
 //! Debug aids: `VH_C18_TRACE=1` prints one line per session; `--opt only=<modes>`,
 //! `--opt kind=random|sweep|malformed`, `--opt max_cells=N`, `--opt scale=N`, `--opt max_size=N`.
 
@@ -47,7 +53,10 @@ use std::{
 
 use engine::{End, Preamble, Role, Shared, Side, SideReport, Strip, StripMode};
 use serde_json::{Value, json};
-use sozu_command_lib::proto::command::{Cluster, ProxyProtocolConfig, request::RequestType};
+use sozu_command_lib::proto::command::{
+    Cluster, ProxyProtocolConfig, QueryMetricsOptions, ResponseContent, filtered_metrics::Inner, request::RequestType,
+    response_content::ContentType,
+};
 
 use crate::{
     common::{Ctx, Report, Rng, par_cases_named},
@@ -628,8 +637,78 @@ fn wait_accepted(p: &sozu_lib::verif::Probe, n: usize, limit: Duration) -> bool 
     true
 }
 
+/// How many sessions this worker ended through its loop-iteration guard so far: sozu's own
+/// counters `tcp.infinite_loop.error` (TcpSession::ready_inner) and `http.infinite_loop.error`
+/// (Pipe::ready of an upgraded WebSocket), read with the QueryMetrics command.
+fn loop_guard_count(w: &mut Worker) -> Option<i64> {
+    let names = ["tcp.infinite_loop.error", "http.infinite_loop.error"];
+    let r = w
+        .call(
+            RequestType::QueryMetrics(QueryMetricsOptions {
+                list: false,
+                cluster_ids: vec![],
+                backend_ids: vec![],
+                metric_names: names.iter().map(|n| (*n).to_owned()).collect(),
+                no_clusters: true,
+                workers: false,
+            }),
+            Duration::from_secs(3),
+        )
+        .ok()?;
+    match r.content {
+        Some(ResponseContent { content_type: Some(ContentType::WorkerMetrics(m)) }) => Some(
+            names
+                .iter()
+                .map(|n| match m.proxy.get(*n).and_then(|f| f.inner.as_ref()) {
+                    Some(Inner::Count(v)) => *v,
+                    _ => 0,
+                })
+                .sum(),
+        ),
+        _ => None,
+    }
+}
+
+/// sozu's own record of failed connections to the cell's backend (`backend.connections.error`,
+/// `backend.down`, cluster and backend level), read with the QueryMetrics command
+fn backend_failure_count(w: &mut Worker) -> Option<i64> {
+    let r = w
+        .call(
+            RequestType::QueryMetrics(QueryMetricsOptions {
+                list: false,
+                cluster_ids: vec!["c18".to_owned()],
+                backend_ids: vec![],
+                metric_names: vec!["backend.connections.error".to_owned(), "backend.down".to_owned()],
+                no_clusters: false,
+                workers: false,
+            }),
+            Duration::from_secs(3),
+        )
+        .ok()?;
+    let count = |m: &std::collections::BTreeMap<String, sozu_command_lib::proto::command::FilteredMetrics>| -> i64 {
+        m.values().map(|f| match f.inner.as_ref() { Some(Inner::Count(v)) => *v, _ => 0 }).sum()
+    };
+    match r.content {
+        Some(ResponseContent { content_type: Some(ContentType::WorkerMetrics(m)) }) => Some(
+            m.clusters.values().map(|c| count(&c.cluster) + c.backends.iter().map(|b| count(&b.metrics)).sum::<i64>()).sum(),
+        ),
+        _ => None,
+    }
+}
+
 fn read_bytes_counter(p: &sozu_lib::verif::Probe) -> u64 {
     p.counter("io.tcp.read.bytes") + p.counter("io.session_tcp.read.bytes")
+}
+
+/// sozu's side of a session for which the scripted backend saw no connection
+#[derive(Clone, Debug)]
+struct NoBackend {
+    /// bytes sozu wrote to sockets during the session (hook counter `io.*.write.bytes`)
+    sozu_wrote: u64,
+    /// connections the scripted backend accepted during the session, markers included
+    backend_accepted: usize,
+    /// sozu's `backend.connections.error` + `backend.down` counters for the cluster (None: query failed)
+    backend_failures: Option<i64>,
 }
 
 struct Ran {
@@ -638,6 +717,10 @@ struct Ran {
     timed_out: bool,
     /// the worker stopped answering commands while the session was stuck
     wedged: bool,
+    /// sozu's own loop-iteration guard fired during this session (its `*.infinite_loop.error` counters moved)
+    cut_by_loop_guard: bool,
+    /// only when no backend connection reached the session: what sozu itself did
+    no_backend: Option<NoBackend>,
     connect_error: Option<String>,
     wall: Duration,
     /// backend connections of earlier sessions discarded before this one started
@@ -774,7 +857,7 @@ fn run_session(env: &Env, spec: &SessionSpec, w: &mut Worker) -> Ran {
     let budget = Duration::from_secs(20).max(Duration::from_micros(volume.saturating_mul(10)));
     let sh = Shared::new(started + budget + env.idle_limit);
     let bind = if env.cell.ipv6 { None } else { spec.src_ip.map(IpAddr::V4) };
-    let mut ran = Ran { client: None, backend: None, timed_out: false, wedged: false, connect_error: None, wall: Duration::ZERO, stale_backend_connections: stale };
+    let mut ran = Ran { client: None, backend: None, timed_out: false, wedged: false, cut_by_loop_guard: false, no_backend: None, connect_error: None, wall: Duration::ZERO, stale_backend_connections: stale };
     let client = match peers::connect(env.front, bind, &spec.cprog, Duration::from_secs(3)) {
         Ok(c) => c,
         Err(e) => {
@@ -1164,9 +1247,12 @@ fn judge(env: &Env, spec: &SessionSpec, ran: &Ran, rep: &mut Report) -> Verdict 
         // a different mechanism, reported under its own signature.
         let opposite_len = if dir == "client_to_backend" { spec.b2c } else { spec.c2b };
         let busy = matches!(spec.script, Script::HalfClose { late: false, .. }) && opposite_len > 0;
-        // nobody had ended a stream yet: sozu cut the session under a sender that was still writing
-        let cut = !sender.send_done && sender.send_err.is_some();
-        let variant = if busy { "/opposite_direction_busy" } else if cut { "/session_cut_mid_transfer" } else { "" };
+        // sozu ended the session itself through its loop-iteration guard (MAX_LOOP_ITERATIONS turns
+        // of one ready() call without either socket blocking): observed on sozu's own
+        // `tcp.infinite_loop.error` / `http.infinite_loop.error` counters, which moved during this
+        // session. Whatever is missing in either direction was cut by that.
+        let _ = sender;
+        let variant = if ran.cut_by_loop_guard { "/session_cut_mid_transfer" } else if busy { "/opposite_direction_busy" } else { "" };
         match receiver {
             Some(r) if ended(r) => {
                 let _ = rep;
@@ -1175,10 +1261,22 @@ fn judge(env: &Env, spec: &SessionSpec, ran: &Ran, rep: &mut Report) -> Verdict 
                     format!("{dir}: the receiver observed end-of-stream ({:?}) after {got} of {len} bytes{}{}", r.end, if sender.send_done { " (all of them written before the sender ended its stream)" } else { " (the sender was cut while writing)" }, if busy { "; the opposite direction was still carrying data" } else { "" }),
                 ))
             }
-            None if ended(c) && dir == "client_to_backend" => Some(Verdict::Violation(
-                format!("{p}/eos_before_all_bytes/{dir}"),
-                format!("{dir}: the session was closed without any backend connection carrying the {len} byte(s) sent"),
-            )),
+            None if ended(c) && dir == "client_to_backend" => match &ran.no_backend {
+                // sozu did write to a backend socket the harness never handed to this session
+                Some(nb) if nb.sozu_wrote > 0 => Some(Verdict::Inconclusive(format!(
+                    "sozu wrote {} byte(s) but no backend connection reached the session (lost on the harness side)",
+                    nb.sozu_wrote
+                ))),
+                // sozu refuses sessions while it holds its backend for failed/down: eligibility is not this property
+                Some(nb) if nb.backend_failures.is_none_or(|f| f > 0) => Some(Verdict::Inconclusive(format!(
+                    "sozu closed the session without connecting: its backend has connection errors on record ({:?})",
+                    nb.backend_failures
+                ))),
+                _ => Some(Verdict::Violation(
+                    format!("{p}/eos_before_all_bytes/{dir}"),
+                    format!("{dir}: the session was closed without any backend connection carrying the {len} byte(s) sent (sozu wrote nothing and has no backend failure on record)"),
+                )),
+            },
             _ if ran.timed_out && mode.incoming_header() && dir == "client_to_backend" && got == 0 && spec.joined > 0 => {
                 Some(Verdict::Stalled(format!("after_header/{hdr_sig}")))
             }
@@ -1321,6 +1419,8 @@ fn witness(ctx: &Ctx, cell: &CellSpec, spec: &SessionSpec, ran: &Ran, front: Soc
         "client": ran.client.as_ref().map(|r| r.json()),
         "backend": ran.backend.as_ref().map(|r| r.json()),
         "watchdog_expired": ran.timed_out, "wall_ms": ran.wall.as_millis() as u64,
+        "ended_by_sozu_loop_guard": ran.cut_by_loop_guard,
+        "no_backend_diagnosis": ran.no_backend.as_ref().map(|n| format!("{n:?}")),
     })
 }
 
@@ -1411,6 +1511,7 @@ fn run_cell(ctx: &Ctx, cell: &CellSpec, rep: &mut Report, shared: &CellShared, i
     };
     rep.obs("cells", 1);
     rep.obs(&format!("cells_mode_{}", cell.mode.name()), 1);
+    let mut loop_guard_seen = loop_guard_count(&mut w).unwrap_or(0);
     let mut strikes = 0;
     let mut abandoned = false;
     let sessions: Vec<SessionSpec> = match isolated {
@@ -1424,8 +1525,28 @@ fn run_cell(ctx: &Ctx, cell: &CellSpec, rep: &mut Report, shared: &CellShared, i
             continue;
         }
         let before = io_counters(&probe);
+        let wrote_before = probe.counter("io.tcp.write.bytes") + probe.counter("io.session_tcp.write.bytes");
+        let accepted_before = backend.accepted.load(Ordering::SeqCst);
         let accepts = accept_count(&probe);
-        let ran = run_session(&env, spec, &mut w);
+        let mut ran = run_session(&env, spec, &mut w);
+        if ran.backend.is_none() && ran.client.is_some() && w.is_running() && !ran.wedged {
+            ran.no_backend = Some(NoBackend {
+                sozu_wrote: (probe.counter("io.tcp.write.bytes") + probe.counter("io.session_tcp.write.bytes")).saturating_sub(wrote_before),
+                backend_accepted: backend.accepted.load(Ordering::SeqCst).saturating_sub(accepted_before),
+                backend_failures: backend_failure_count(&mut w),
+            });
+        }
+        if w.is_running() && !ran.wedged {
+            if let Some(g) = loop_guard_count(&mut w) {
+                if g > loop_guard_seen {
+                    ran.cut_by_loop_guard = true;
+                    rep.obs("sessions_ended_by_sozu_loop_iteration_guard", 1);
+                }
+                loop_guard_seen = g;
+            } else {
+                rep.obs("loop_guard_metric_query_failed", 1);
+            }
+        }
         if ran.connect_error.is_none() && w.is_running() && !ran.wedged && !wait_accepted(&probe, accepts + 1, Duration::from_secs(2)) {
             rep.obs("sessions_never_seen_accepted_by_sozu", 1);
         }
@@ -1459,9 +1580,9 @@ fn run_cell(ctx: &Ctx, cell: &CellSpec, rep: &mut Report, shared: &CellShared, i
         }
         if std::env::var_os("VH_C18_TRACE").is_some() {
             eprintln!(
-                "cell {} {} k={} c2b={} b2c={} {} | c[{}] b[{}] knobs={:?} brcv={} bs={} wall={}ms verdict={}",
+                "cell {} {} k={} c2b={} b2c={} {} | c[{}] b[{}] knobs={:?} brcv={} bs={} wall={}ms loop_guard={} verdict={}",
                 cell.idx, cell.mode.name(), spec.k, spec.c2b, spec.b2c, spec.script.name(), spec.cprog.describe(), spec.bprog.describe(),
-                cell.knobs, cell.backend_rcvbuf, cell.buffer_size, ran.wall.as_millis(),
+                cell.knobs, cell.backend_rcvbuf, cell.buffer_size, ran.wall.as_millis(), ran.cut_by_loop_guard,
                 match &verdict { Verdict::Held => "held".to_owned(), Verdict::Violation(s, _) => format!("VIOLATION {s}"), Verdict::Stalled(d) => format!("stalled {d}"), Verdict::Inconclusive(w) => format!("inconclusive {w}") }
             );
         }
